@@ -59,6 +59,10 @@ type localMacroFunc struct {
 	params   []string
 	template ast.Expr
 
+	// The positions of the template identifiers that are bound to something
+	// that is not local (a package-level func, a builtin, a type).
+	nonLocal map[token.Pos]struct{}
+
 	expanding bool // Set while the template is being expanded
 }
 
@@ -256,6 +260,22 @@ func (conv *converter) findLocalMacro(call *ast.CallExpr) *localMacroFunc {
 	if !ok {
 		return nil
 	}
+	// The local funcs are found by name, but a name means what is in scope where
+	// it is written: a package-level func (a builtin, a type) called by a local func
+	// is not the local func that is given the same name later on.
+	if obj := conv.types.Uses[fn]; obj != nil {
+		if !isLocalVar(obj) {
+			return nil
+		}
+	} else {
+		// A copy of a template identifier: it keeps the position,
+		// but it is unknown to types.Info.
+		for i := range conv.groupFuncs {
+			if _, ok := conv.groupFuncs[i].nonLocal[fn.Pos()]; ok {
+				return nil
+			}
+		}
+	}
 	for i := range conv.groupFuncs {
 		if conv.groupFuncs[i].name == fn.Name {
 			return &conv.groupFuncs[i]
@@ -413,8 +433,23 @@ func (conv *converter) localDefine(assign *ast.AssignStmt) {
 		name:     lhs.Name,
 		params:   params,
 		template: stmt.Results[0],
+		nonLocal: make(map[token.Pos]struct{}),
 	}
+	ast.Inspect(macro.template, func(n ast.Node) bool {
+		if id, ok := n.(*ast.Ident); ok {
+			if obj := conv.types.Uses[id]; obj != nil && !isLocalVar(obj) {
+				macro.nonLocal[id.Pos()] = struct{}{}
+			}
+		}
+		return true
+	})
 	conv.groupFuncs = append(conv.groupFuncs, macro)
+}
+
+// isLocalVar reports whether obj is a variable (or a param) of a function.
+func isLocalVar(obj types.Object) bool {
+	v, ok := obj.(*types.Var)
+	return ok && !v.IsField() && v.Pkg() != nil && v.Parent() != v.Pkg().Scope()
 }
 
 func (conv *converter) doMatcherImport(call *ast.CallExpr) {
